@@ -130,6 +130,16 @@ Theorem stop_ends_after_current : forall c w0 ls s ls' s', run c w0 ls s -> stop
 Proof. exact RTLoopFacts.stop_ends_after_current_l. Qed.
 Print Assumptions stop_ends_after_current.
 
+(* The start phase is covered: run_storage clears the flag BEFORE graph.start, so a stop that lands while the
+   nodes are starting (from a start hook or from another thread) stays; the run then makes no advance and no
+   cycle at all: when start returns the first loop test leaves the loop. *)
+Theorem stop_during_start_zero_cycles : forall c w0 ls s ls' s', wfc c -> run c w0 ls s ->
+  ph s = PStart -> stop s = true -> exec c s ls' = Some s' ->
+  stop s' = true /\ cycles s' = [] /\ (ph s' = PStart \/ ph s' = PTop \/ ph s' = PDone) /\
+  ~ In LTop ls' /\ (forall t, ~ In (LEvalBegin t) ls') /\ (forall t, ~ In (LAdv t) ls').
+Proof. exact RTLoopFacts.stop_during_start_l. Qed.
+Print Assumptions stop_during_start_zero_cycles.
+
 (* From any point of the loop's own code the loop thread is out after at most togo <= 4 of its own
    steps (leave the wait, re-read the clock, return from advance_realtime, break), whatever the
    other threads do in between. *)
@@ -217,6 +227,18 @@ Proof. vm_compute. repeat split; reflexivity. Qed.
 
 Example ex_cycle_times : eval_times ex_run = [112; 130; 145].
 Proof. vm_compute. reflexivity. Qed.
+
+(* a stop landing during the start phase (between two start hooks): the run returns without a cycle *)
+Example ex_stop_during_start :
+  match exec ex_cfg (init ex_cfg 80) [LNode; LReq 1 30 0 0 130; XStopSet; XStopNotify] with
+  | Some s => ph s = PStart /\ stop s = true /\
+      match exec ex_cfg s [LNode; LStarted; LExit] with
+      | Some s' => ph s' = PDone /\ cycles s' = [] /\ pend s' = [130]
+      | None => False
+      end /\ exec ex_cfg s [LNode; LStarted; LTop] = None
+  | None => False
+  end.
+Proof. vm_compute. repeat split; reflexivity. Qed.
 
 Example ex_wfc : wfc ex_cfg.
 Proof. unfold wfc, ex_cfg, MAX_DT; simpl; lia. Qed.
